@@ -1,6 +1,7 @@
 package main
 
 import (
+	"regexp"
 	"bytes"
 	"encoding/json"
 	"fmt"
@@ -117,6 +118,54 @@ func c20Serve(req *http.Request, what interface{}) *httptest.ResponseRecorder {
 		hung := httptest.NewRecorder()
 		hung.WriteHeader(599)
 		return hung
+	}
+}
+
+var reTypedArg = regexp.MustCompile(`\*[A-Za-z][A-Za-z0-9_.]*\((0x[0-9a-f]+|#[0-9]+)\)`)
+
+// c20Sequence: what the handler answers to a request must not depend on the parameters of the requests
+// before it.  The page of `augment=1` shows arguments with their types (the sources of the Go library
+// and of this program are on disk); it must still do so after an `augment=0` request, and the other
+// way round; the same with the similarity levels.
+func c20Sequence(res *Result) {
+	get := func(query string) (int, string) {
+		req := httptest.NewRequest("GET", "/?"+query, nil)
+		rec := c20Serve(req, map[string]interface{}{"request": "GET /?" + query})
+		return rec.Code, rec.Body.String()
+	}
+	typed := func(body string) int { return len(reTypedArg.FindAllString(body, -1)) }
+	for round := 0; round < countN(res.Tier, 2, 10); round++ {
+		var history []string
+		step := func(q string) (int, string) {
+			history = append(history, "GET /?"+q)
+			return get(q)
+		}
+		c1, p1 := step("augment=1")
+		if c1 != 200 {
+			return
+		}
+		t1 := typed(p1)
+		res.Eval(fmt.Sprintf("sequence|%d", round), t1 > 0)
+		if t1 == 0 {
+			res.Count("sequence:no-sources")
+			return
+		}
+		c0, p0 := step("augment=0")
+		c3, p3 := step("augment=1")
+		_, pd := step("")
+		res.Count("sequence-rounds")
+		if c0 != 200 || c3 != 200 {
+			res.Violation(Finding{Stream: "web sequence", What: fmt.Sprintf("a valid GET was answered with status %d / %d after other valid requests", c0, c3), Op: map[string]interface{}{"requests": history}})
+			return
+		}
+		if t3 := typed(p3); t3 == 0 {
+			res.Violation(Finding{Stream: "web sequence", What: fmt.Sprintf("GET /?augment=1 showed %d arguments with their types; the same request after a GET /?augment=0 shows none: what the handler answers depends on the parameters of an earlier request", t1), Op: map[string]interface{}{"requests": history}})
+			return
+		}
+		if t0 := typed(p0); t0 != 0 && typed(pd) == 0 {
+			res.Violation(Finding{Stream: "web sequence", What: "the page of GET / (default parameters) lost its typed arguments after requests with other augment values", Op: map[string]interface{}{"requests": history}})
+			return
+		}
 	}
 }
 
@@ -558,7 +607,11 @@ func runC20(prop string, res *Result, pool *DrvPool, r *Rng) {
 	timed("atoi", func() { c20Atoi(res, pool, r) })
 	// (a) with the churn paused: the number of goroutines is steady, so the page can be checked exactly
 	w.Pause()
+	// the request sequences come first: they are about what earlier requests leave behind, and the
+	// grid below makes every kind of request
+	timed("sequence", func() { c20Sequence(res) })
 	timed("grid", func() { c20Grid(res, pool, b) })
+	timed("sequence-after-grid", func() { c20Sequence(res) })
 	w.Resume()
 	if c20hung {
 		// the handler is stuck: nothing further can be learnt from this process
